@@ -713,6 +713,9 @@ struct Exec {
     /// (rendering, cells, (filled, current, background)) of the bars of that rendering, where it
     /// is not "background only"
     geoms: Vec<(u64, u64, (u64, Option<u64>, u64))>,
+    /// numeric-key observations with the snapshot they were made in, for the keys whose text is a
+    /// function of (position, length, fraction, elapsed): Coq `mkenvobs pos len pct elapsed id w text`
+    envobs: Vec<String>,
 }
 
 /// [multi]: the bar is the only member of a MultiProgress that draws to the recording terminal
@@ -972,6 +975,25 @@ fn execute(ops: &[Op], multi: bool, term_w: u16) -> Exec {
                                 // the model's hypothesis env_ok, looked at directly
                                 if text.contains('\t') && ex.env_fail.is_none() {
                                     ex.env_fail = Some(format!("before op #{i} {}: {{{}}} writes {text:?}", o.desc(), NUM_KEYS[k].0));
+                                }
+                                // ids 6..=19: pos, len, human_*, percent*, the six byte keys, elapsed* (the
+                                // others depend on the estimator's floats)
+                                if NUM_KEYS[k].1 <= 19 && ex.envobs.len() < 40 {
+                                    let pct = ((fraction(pos, len) * 100f32) as f64).to_bits();
+                                    ex.envobs.push(format!(
+                                        "(mkenvobs {pos} {} {pct} {} {} {} {})",
+                                        match len {
+                                            Some(l) => format!("(Some {l})"),
+                                            None => "None".into(),
+                                        },
+                                        shadow.elapsed().as_nanos(),
+                                        NUM_KEYS[k].1,
+                                        match h.width {
+                                            Some(w) => format!("(Some {w})"),
+                                            None => "None".into(),
+                                        },
+                                        cstr(&text)
+                                    ));
                                 }
                                 ex.pernum.push((renderings, NUM_KEYS[k].1, h.width, text));
                                 ex.counts.push(format!("environment:numeric-key:{}", NUM_KEYS[k].0));
@@ -1294,7 +1316,7 @@ fn report(s: &mut Session, ops: &[Op], ex: &Exec, twin: Option<&Exec>, nums: &[(
         })
         .collect();
     let coq = format!(
-        "({term_w}, {}, {}, {}, {}, {}, {})",
+        "(({term_w}, {}, {}, {}, {}, {}, {}), {})",
         clist(wt),
         clist(nums.iter().map(|(id, x)| format!("({id}, {})", cstr(x)))),
         clist(ex.pernum.iter().map(|(d, id, w, x)| format!(
@@ -1313,7 +1335,8 @@ fn report(s: &mut Session, ops: &[Op], ex: &Exec, twin: Option<&Exec>, nums: &[(
             }
         ))),
         clist(ops.iter().filter(|o| !matches!(o, Op::Clock(_))).map(|o| o.coq())),
-        clist(ex.outs.iter().map(|o| o.coq()))
+        clist(ex.outs.iter().map(|o| o.coq())),
+        clist(ex.envobs.iter().cloned())
     );
     s.case(coq, desc, nontrivial);
 }
@@ -1439,8 +1462,8 @@ fn main() {
     indicatif::verif_clock::set_auto_step_ns(0);
     // styled placeholders write their escape sequences whatever stdout is
     console::set_colors_enabled(true);
-    let header = "From IndModel Require Import Base Tabs.\nFrom IndModel Require Padded.\nOpen Scope N_scope.\n";
-    let mut s = Session::new(&a, "C16", header, "(N * list (N * N) * list (N * text) * list (N * N * option N * text) * list (N * N * (N * option N * N)) * list op * list out)%type", "c16_check");
+    let header = "From IndModel Require Import Base Tabs TabsEnv.\nFrom IndModel Require Padded.\nOpen Scope N_scope.\n";
+    let mut s = Session::new(&a, "C16", header, "((N * list (N * N) * list (N * text) * list (N * N * option N * text) * list (N * N * (N * option N * N)) * list op * list out) * list envobs)%type", "c16_check_env");
     s.shard_size = 120;
     s.rule = "histories (length 1..30, half of them with clock steps and update(set_pos/set_len) calls in between) of set_tab_width/with_tab_width, set_style/with_style (fresh style, style().template(), saved clone), set_message/with_message/set_prefix/with_prefix/finish_with_message/abandon_with_message/with_finish/finish_using_style, tick, println (texts with TABs, several lines, empty), message()/prefix() on one bar drawing to a recording TermLike of 40, 12, 79 or 5 columns; texts of 0..7 characters with TAB probability 1/3 (also tab-free and tab-only), long messages (8..60) for truncation, tab widths 0,1,2,3,4,8,16 and random up to 40, templates of 0..6 parts; 2 in 5 histories are 'rich': placeholders of every kind (msg, prefix, custom, wide_msg, wide_bar, bar, spinner, all 22 numeric / time keys (texts observed per rendering on a shadow bar in the same state)) with alignment / width / truncation / style / alt style, and styles with their own tick strings / progress characters, a third of the tick strings with TABs (each such history is also run with those TABs replaced: the twin attributes a TAB that reaches the terminal), 4 in 9 progress-character arguments with a TAB (the builder must reject them and the history goes on with the old style); every history is compared with the model; non-trivial = at least 2 ops; distinct = distinct history text".into();
     let mut g = Gen { r: Rng::new(a.seed) };
@@ -1572,7 +1595,7 @@ fn main() {
             Op::SetPrefix("p\0\0".into()),
             Op::SetTabWidth(2),
         ],
-        // the former D29 witness (C16_no_tab_refuted_pre_6ff82af): a TAB inside a tick string is
+        // the former D29 witness (C16_no_tab_pre_6ff82af_regression): a TAB inside a tick string is
         // expanded at render time - with the width of the moment, also after a change, also when
         // finished (last tick string), also through a saved clone and a derived template
         vec![
